@@ -4,7 +4,7 @@ CONSTANTS
   Vals <- MCVals
   Coefs <- MCCoefsSmall
   MaxN = 4
-  NVs = {1, 2}
+  NVs = {2}
   LinNV = {2}
   Shapes1 <- Nodes24
   Shapes2 <- ShapesAll4
